@@ -615,6 +615,23 @@ fn run_scenario(sc: &J) -> J {
             }
             continue;
         }
+        if kind == "defnative" {
+            // the host registers a native function under `name` in a module of its own (which may not exist yet); the function
+            // is the event printer, so scripts of that module can report without any built-in
+            let module = p.get("module").and_then(|k| k.as_str()).unwrap_or("main");
+            let name = p.get("name").and_then(|k| k.as_str()).unwrap_or("emit");
+            let r = panic::catch_unwind(panic::AssertUnwindSafe(|| vm.define_native(module, name, printer)));
+            let events = SIM.with(|s| std::mem::take(&mut s.borrow_mut().events));
+            match r {
+                Ok(_) => outs.push(json!({"events": events, "outcome": {"defnative": true}})),
+                Err(p) => {
+                    outs.push(json!({"events": events, "outcome": {"panic": panic_msg(p)}}));
+                    std::mem::forget(vm);
+                    return finish(sc, outs);
+                }
+            }
+            continue;
+        }
         if kind == "peek" {
             // the host looks a global of some module up (a module the script may not have imported yet)
             let module = p.get("module").and_then(|k| k.as_str()).unwrap_or("main");
@@ -719,8 +736,9 @@ fn run_scenario(sc: &J) -> J {
             .and_then(|k| k.as_str())
             .unwrap_or("")
             .to_string();
+        let in_module = p.get("module").and_then(|k| k.as_str()).map(|m| m.to_string());
         let r = panic::catch_unwind(panic::AssertUnwindSafe(|| {
-            vm::interpret(&mut vm, src, None)
+            vm::interpret(&mut vm, src, in_module.as_deref())
         }));
         let events = SIM.with(|s| std::mem::take(&mut s.borrow_mut().events));
         let outcome = match r {
